@@ -8,6 +8,7 @@ mod progen;
 mod verify;
 mod exec;
 mod text;
+mod helpers;
 
 use std::io::{BufRead, Write};
 
@@ -26,6 +27,7 @@ fn run_line(line: &str) -> String {
         "verify" => verify::run(&toks),
         "disdbg" => { let p = rng::unhex(toks[1]).unwrap(); catch(move || rbpf::disassembler::to_insn_vec(&p).iter().enumerate().map(|(i, x)| format!("{}: {}", i, x.desc)).collect::<Vec<_>>().join("\n")) }
         "asm" | "dis" | "rt" => text::run(&toks),
+        "helper" if toks.len() >= 2 => helpers::run(&toks),
         "exec" => exec::run(&toks),
         _ => "bad-op".into(),
     }
@@ -55,6 +57,7 @@ fn main() {
                 "asmfuzz" => text::gen_asmfuzz(&mut w, thorough, seed),
                 "dis" => text::gen_dis(&mut w, thorough, seed),
                 "rt" => text::gen_rt(&mut w, thorough, seed),
+                "helper" => helpers::gen(&mut w, thorough, seed),
                 "exec-long" => exec::gen_long(&mut w, thorough, seed),
                 _ => { eprintln!("unknown suite {suite}"); std::process::exit(2); }
             }
